@@ -105,6 +105,13 @@ CLAIMED["C12"] = {
     "technique": "contract-based deductive verification: modular proof against callee contracts (stubs), If-folded min/max, small NRA convexity lemmas",
 }
 
+CLAIMED["C13"] = {
+    "text": "The real sample_in_hull runs on symbolic point clouds against the qhull / generator / Dirichlet / QMC contracts (the hull-vertex and triangulation index sets are ghost inputs; every drawn simplex index and every multinomial allocation is explored by forking): exactly n rows; each row equals sum_j w_j * (input point j of ONE triangulation simplex) with the convex weights actually drawn (w >= 0, sum 1), hence lies in conv(P); the simplex index is drawn with p == |det(edges)|/d! / sum and the weights are Dirichlet(1,...,1) -- the two code-level ingredients of uniformity; QMC: one multinomial allocation with n trials, weight rows L1-normalised; a second call with the same seed returns syntactically identical samples; estimator.sample_in_hull passes the gamut points / chromatic image and maps back with L1 = l1.",
+    "design_ref": "DESIGN.md section 6 C13",
+    "note": A_COMMON + " UNIFORMITY ITSELF IS NOT DECIDED: contracts pin the parameters handed to the samplers, the probability theory (Dirichlet(1..1) uniform on a simplex, volume-proportional mixture) is cited. RNG / dirichlet / qmc are assumed to return values in their support as a function of the seed. dims 2 quick, 2-3 thorough; n <= 3.",
+    "technique": "contract-based deductive verification: explicit convex-combination witnesses from logged ghost draws, path forking over discrete draws, exact polynomial identities",
+}
+
 NOT_APPLICABLE = {}
 
-FIX_COMMITS = ["b2d156a (np.trapz -> trapezoid)", "1caec1a (negative fit targets no longer declared positive cvxpy parameters)", "f3b37fa (batched_iteration bs > n)", "b98cd56 (poisson baseline tiling)", "d30d941 (minimize .copy())", "35d91a0 (minimize reshape order)", "b90b02d (minimize padded slack)", "7019c2d (excitation baseline)", "3901923 (excitation per-sample)", "b370f4e (adaptive default solver)", "cef6319 (gamut apex = capture at lb)", "f990a92 (hull_dist_scaling forwards relative)", "3b5a1c6 (dichromat chromatic membership)"]
+FIX_COMMITS = ["b2d156a (np.trapz -> trapezoid)", "1caec1a (negative fit targets no longer declared positive cvxpy parameters)", "f3b37fa (batched_iteration bs > n)", "b98cd56 (poisson baseline tiling)", "d30d941 (minimize .copy())", "35d91a0 (minimize reshape order)", "b90b02d (minimize padded slack)", "7019c2d (excitation baseline)", "3901923 (excitation per-sample)", "b370f4e (adaptive default solver)", "cef6319 (gamut apex = capture at lb)", "f990a92 (hull_dist_scaling forwards relative)", "3b5a1c6 (dichromat chromatic membership)", "be7bf4f (math.factorial in sample_in_hull)"]
